@@ -93,6 +93,9 @@ pub struct Case {
     /// restart the discoverer once after this many producer steps (None = never)
     pub restart_after: Option<usize>,
     pub current_only: bool,
+    /// the producer pauses before step `start_after` until the discoverer is built and the
+    /// lifetimes are bound (otherwise it races with them)
+    pub sync_start: bool,
     pub transport: Transport,
     pub minors: [u32; 2],
 }
@@ -127,6 +130,9 @@ fn make(case: &Case) -> (Vec<ClientCfg>, Vec<(String, App)>) {
     let (done_tx2, done_rx2) = oneshot::channel::<()>();
     let (keep_tx, keep_rx) = oneshot::channel::<()>();
     let (keep_tx2, keep_rx2) = oneshot::channel::<()>();
+    let (ready_tx, mut ready_rx) = mpsc::unbounded::<()>();
+    let ready_tx2 = ready_tx.clone();
+    let sync_at = if case.sync_start { Some(case.start_after) } else { None };
     let prog = case.prog.clone();
     let w1 = world.clone();
     let mut apps = Vec::new();
@@ -136,6 +142,11 @@ fn make(case: &Case) -> (Vec<ClientCfg>, Vec<(String, App)>) {
             drop(hs);
             let mut objs: BTreeMap<u8, (Object, usize, BTreeMap<u8, Service>)> = BTreeMap::new();
             for (i, op) in prog.iter().enumerate() {
+                if sync_at == Some(i) {
+                    // both observers report in
+                    let _ = ready_rx.next().await;
+                    let _ = ready_rx.next().await;
+                }
                 match *op {
                     Op::Create(o) => {
                         let obj = h.create_object(ou(o)).await.map_err(|e| format!("create: {e:?}"))?;
@@ -208,13 +219,19 @@ fn make(case: &Case) -> (Vec<ClientCfg>, Vec<(String, App)>) {
                     None => break,
                 }
             }
-            // key 0: object 1 with service 1; key 1: any object with services 1 and 2; key 2: bare object 2
+            // key 0: object 1 with service 1; key 1: any object with services 1 and 2; key 2: bare object 2;
+            // key 3: object 1 with services 1 and 2; key 4: any object with service 2; key 5: bare object 1
             let builder = h
                 .create_discoverer::<u8>()
                 .object_with_services(0, ou(1), [su(1)])
                 .any_object_with_services(1, [su(1), su(2)])
-                .bare_object(2, ou(2));
+                .bare_object(2, ou(2))
+                .object_with_services(3, ou(1), [su(1), su(2)])
+                .any_object_with_services(4, [su(2)])
+                .bare_object(5, ou(1));
             let mut disc = if case2.current_only { builder.build_current_only().await } else { builder.build().await }.map_err(|e| format!("build: {e:?}"))?;
+            let _ = ready_tx.unbounded_send(());
+            drop(ready_tx);
             let mut events: Vec<(u8, DiscovererEventKind, ObjectId)> = Vec::new();
             let mut restarted = false;
             let mut done = done_rx;
@@ -310,6 +327,18 @@ fn make(case: &Case) -> (Vec<ClientCfg>, Vec<(String, App)>) {
                     None => break,
                 }
             }
+            // bind a lifetime to every incarnation the producer has created so far (alive or not)
+            let early: Vec<ObjectId> = w3.borrow().incs.iter().filter_map(|i| i.id).collect();
+            let mut early_bound: Vec<(ObjectId, aldrin::Lifetime)> = Vec::new();
+            for id in early {
+                match h.create_lifetime(LifetimeId(id)).await {
+                    Ok(l) => early_bound.push((id, l)),
+                    Err(Error::Shutdown) => {}
+                    Err(e) => return Err(format!("create_lifetime: {e:?}")),
+                }
+            }
+            let _ = ready_tx2.unbounded_send(());
+            drop(ready_tx2);
             // wait for object 1 (any incarnation, no services required)
             let t0 = w3.borrow().clock;
             let mut done2 = done_rx2;
@@ -392,6 +421,36 @@ fn make(case: &Case) -> (Vec<ClientCfg>, Vec<(String, App)>) {
                     }
                 }
             }
+            for (id, mut lt) in early_bound {
+                let ended_now = poll_fn(|cx| Poll::Ready(lt.poll_ended(cx).is_ready())).await;
+                let w = w3.borrow();
+                let alive = w.final_state.values().any(|(oid, _)| *oid == id);
+                if ended_now && alive {
+                    result = result.and(Err(format!("lifetime bound early to {id:?} has ended although the object is alive")));
+                }
+                if !ended_now && !alive {
+                    result = result.and(Err(format!("lifetime bound early to {id:?} has not ended although the object is gone and bus activity has stopped")));
+                }
+            }
+            // lifetimes bound late, to every incarnation there ever was: old cookies of a re-created
+            // UUID have ended, the current ones have not
+            let all_ids: Vec<ObjectId> = w3.borrow().incs.iter().filter_map(|i| i.id).collect();
+            for id in all_ids {
+                match h.create_lifetime(LifetimeId(id)).await {
+                    Ok(mut l) => {
+                        h.sync_broker().await.map_err(|e| format!("sync: {e:?}"))?;
+                        let ended = poll_fn(|cx| Poll::Ready(l.poll_ended(cx).is_ready())).await;
+                        let alive = w3.borrow().final_state.values().any(|(oid, _)| *oid == id);
+                        if ended && alive {
+                            result = result.and(Err(format!("lifetime bound late to {id:?} has ended although the object is alive")));
+                        }
+                        if !ended && !alive {
+                            result = result.and(Err(format!("lifetime bound late to {id:?} (an old incarnation) has not ended although that incarnation is gone")));
+                        }
+                    }
+                    Err(e) => result = result.and(Err(format!("create_lifetime(late): {e:?}"))),
+                }
+            }
             // a lifetime bound to an id that never existed ends at once
             let ghost = ObjectId::new(ou(9), aldrin::core::ObjectCookie(Uuid::from_bytes([7; 16])));
             match h.create_lifetime(LifetimeId(ghost)).await {
@@ -413,6 +472,8 @@ fn make(case: &Case) -> (Vec<ClientCfg>, Vec<(String, App)>) {
     (clients, apps)
 }
 
+const NKEYS: u8 = 6;
+
 fn check_view(disc: &aldrin::Discoverer<u8>, events: &[(u8, DiscovererEventKind, ObjectId)], w: &World, case: &Case) -> Result<(), String> {
     // expected view per entry from the final bus state
     let mut expected: BTreeMap<u8, Vec<ObjectId>> = BTreeMap::new();
@@ -426,9 +487,18 @@ fn check_view(disc: &aldrin::Discoverer<u8>, events: &[(u8, DiscovererEventKind,
         if *o == 2 {
             expected.entry(2).or_default().push(*oid);
         }
+        if *o == 1 && svcs.contains_key(&1) && svcs.contains_key(&2) {
+            expected.entry(3).or_default().push(*oid);
+        }
+        if svcs.contains_key(&2) {
+            expected.entry(4).or_default().push(*oid);
+        }
+        if *o == 1 {
+            expected.entry(5).or_default().push(*oid);
+        }
     }
     if !case.current_only {
-        for key in 0..3u8 {
+        for key in 0..NKEYS {
             let mut got: Vec<ObjectId> = disc.entry_iter(key).map(|e| e.object_id()).collect();
             got.sort();
             let mut want = expected.get(&key).cloned().unwrap_or_default();
@@ -442,7 +512,8 @@ fn check_view(disc: &aldrin::Discoverer<u8>, events: &[(u8, DiscovererEventKind,
                 if let Some((_, (_, svcs))) = w.final_state.iter().find(|(_, (id, _))| *id == oid) {
                     let req: &[u8] = match key {
                         0 => &[1],
-                        1 => &[1, 2],
+                        1 | 3 => &[1, 2],
+                        4 => &[2],
                         _ => &[],
                     };
                     for s in req {
@@ -492,14 +563,16 @@ fn check_view(disc: &aldrin::Discoverer<u8>, events: &[(u8, DiscovererEventKind,
         }
     }
     // incarnation order of cookies
-    for key in 0..3u8 {
+    for key in 0..NKEYS {
         for o in [1u8, 2] {
             let order: Vec<ObjectId> = w.incs.iter().filter(|i| i.uuid == o).filter_map(|i| i.id).collect();
             let seen: Vec<ObjectId> = events.iter().filter(|(k, kind, id)| *k == key && *kind == DiscovererEventKind::Created && id.uuid == ou(o)).map(|e| e.2).collect();
+            // the same incarnation may be announced again (a required service went and came back);
+            // an earlier incarnation may not reappear after a later one
             let mut pos = 0usize;
             for s in &seen {
                 match order[pos..].iter().position(|x| x == s) {
-                    Some(p) => pos += p + 1,
+                    Some(p) => pos += p,
                     None => {
                         if order.contains(s) {
                             return Err(format!("entry {key}: created events for object {o} are out of incarnation order: {seen:?} vs {order:?}"));
@@ -540,10 +613,21 @@ pub fn cases(tier: Tier) -> Vec<Case> {
                 if !full && s != 0 && s != len / 2 {
                     continue;
                 }
-                v.push(Case { prog: prog.clone(), start_after: s, restart_after: None, current_only: false, transport: Transport::Unbounded, minors: [20, 20] });
+                // synchronised start: everything after step s happens in front of a live discoverer
+                if s < len {
+                    v.push(Case { prog: prog.clone(), start_after: s, restart_after: None, current_only: false, sync_start: true, transport: Transport::Unbounded, minors: [20, 20] });
+                }
+                // racing start
+                if full || s == len {
+                    v.push(Case { prog: prog.clone(), start_after: s, restart_after: None, current_only: false, sync_start: false, transport: Transport::Unbounded, minors: [20, 20] });
+                }
                 if len >= 2 && s == 0 && full {
-                    v.push(Case { prog: prog.clone(), start_after: 0, restart_after: Some(len - 1), current_only: false, transport: Transport::Bounded(1), minors: [14, 20] });
-                    v.push(Case { prog: prog.clone(), start_after: s, restart_after: None, current_only: true, transport: Transport::Unbounded, minors: [20, 17] });
+                    for r in 1..len {
+                        v.push(Case { prog: prog.clone(), start_after: 0, restart_after: Some(r), current_only: false, sync_start: true, transport: Transport::Bounded(1), minors: [14, 20] });
+                    }
+                    v.push(Case { prog: prog.clone(), start_after: 0, restart_after: Some(len - 1), current_only: false, sync_start: false, transport: Transport::Unbounded, minors: [20, 20] });
+                    v.push(Case { prog: prog.clone(), start_after: s, restart_after: None, current_only: true, sync_start: false, transport: Transport::Unbounded, minors: [20, 17] });
+                    v.push(Case { prog: prog.clone(), start_after: s, restart_after: Some(len - 1), current_only: true, sync_start: true, transport: Transport::Unbounded, minors: [20, 17] });
                 }
             }
         }
@@ -556,16 +640,17 @@ pub fn run(tier: Tier) -> ! {
     let samples = Samples::new(6);
     let all = cases(tier);
     let n = all.len();
-    let d = tier.pick(1, 2);
+    let d = std::env::var("TASKMC_BOUND").ok().and_then(|s| s.parse().ok()).unwrap_or(tier.pick(1, 2));
     let executions = AtomicU64::new(0);
     let start = Instant::now();
     let budget = Duration::from_secs(tier.pick(50, 1500));
     let mut distinct = 0u64;
+    let mut diverged = 0u64;
     let mut capped = 0usize;
     let mut completed_min: Option<u32> = None;
     for (i, case) in all.iter().enumerate() {
         let deadline = start + budget.mul_f64((i + 1) as f64 / n as f64).max(Duration::from_millis(100));
-        let cfg = ExploreCfg { bound: d, deadline: Some(deadline), ..Default::default() };
+        let cfg = ExploreCfg { bound: d, deadline: Some(deadline), tolerate_divergence: true, ..Default::default() };
         let st = explore(&cfg, |ch: &mut Chooser| {
             executions.fetch_add(1, Ordering::Relaxed);
             match mcx::catch(|| run_case(case, ch)) {
@@ -586,6 +671,7 @@ pub fn run(tier: Tier) -> ! {
             }
         });
         distinct += st.distinct_runs;
+        diverged += st.diverged;
         if st.capped {
             capped += 1;
         }
@@ -598,11 +684,15 @@ pub fn run(tier: Tier) -> ! {
             samples.push(|| json!({"case": format!("{case:?}"), "schedules": st.distinct_runs}));
         }
     }
+    if diverged > 0 && !rep.has_violation() {
+        mcx::machinery(format!("{diverged} replayed schedule prefixes diverged (uncontrolled nondeterminism) and no violation was found"));
+    }
     let mut cov = coverage();
+    cov.insert("replays_diverged".into(), json!(diverged));
     cov.insert("evaluations".into(), json!(executions.load(Ordering::Relaxed)));
     cov.insert("distinct_nontrivial".into(), json!(distinct));
     cov.insert("rule".into(), json!("cases = all valid producer programs of length <= L over {create/destroy object 1|2, add/remove service 1|2} x discoverer start position x {plain, restart, current-only}; per case all task schedules with at most d deviations; each execution compares the discoverer's final view, its event stream, a bound lifetime and a wait_for_object result with what the producer actually did"));
-    cov.insert("exhaustive".into(), json!(capped == 0));
+    cov.insert("exhaustive".into(), json!(capped == 0 && diverged == 0));
     cov.insert("cases".into(), json!(n));
     cov.insert("deviation_bound".into(), json!(d));
     cov.insert("min_deviation_bound_completed".into(), json!(completed_min));
